@@ -149,6 +149,11 @@ pub struct DocCase {
     pub fields: Vec<u8>,
     pub unknown_field: bool,
     pub hasher_doc: u8,
+    /// 0 = JSON object (the documented shape); 1 = JSON array of the field values in `fields` order (what a derive-style
+    /// visit_seq would accept); 2 = array with the registers array flattened into it; 3 = object wrapped in a one-element array;
+    /// 4 = object whose field values are each wrapped in a one-element array
+    #[serde(default)]
+    pub shape: u8,
 }
 
 fn render(c: &DocCase) -> String {
@@ -194,17 +199,31 @@ fn render(c: &DocCase) -> String {
         _ => "7".to_string(),
     };
     let mut parts: Vec<String> = vec![];
+    let shape = c.shape % 5;
     for f in &c.fields {
-        match f % 3 {
-            0 => parts.push(format!("\"registers\":{}", reg_txt)),
-            1 => parts.push(format!("\"b\":{}", b_txt)),
-            _ => parts.push(format!("\"buildhasher\":{}", hasher_txt)),
+        let (key, val) = match f % 3 {
+            0 => ("registers", if shape == 2 { regs.join(",") } else { reg_txt.clone() }),
+            1 => ("b", b_txt.clone()),
+            _ => ("buildhasher", hasher_txt.clone()),
+        };
+        match shape {
+            1 | 2 => {
+                if !val.is_empty() {
+                    parts.push(val)
+                }
+            }
+            4 => parts.push(format!("\"{}\":[{}]", key, val)),
+            _ => parts.push(format!("\"{}\":{}", key, val)),
         }
     }
     if c.unknown_field {
-        parts.push("\"extra\":1".to_string());
+        parts.push(if shape == 1 || shape == 2 { "1".to_string() } else { "\"extra\":1".to_string() });
     }
-    format!("{{{}}}", parts.join(","))
+    match shape {
+        1 | 2 => format!("[{}]", parts.join(",")),
+        3 => format!("[{{{}}}]", parts.join(",")),
+        _ => format!("{{{}}}", parts.join(",")),
+    }
 }
 
 /// The invariant oracle shared by documents and byte mutations.
@@ -284,7 +303,9 @@ impl Check for Docs {
                         .class_if(accepted, "accepted")
                         .class_if(!accepted, "rejected")
                         .class_if(is_json && all3, "structurally_valid_all_fields")
-                        .class_if(c.fields.len() > 3, "duplicate_fields"),
+                        .class_if(c.fields.len() > 3, "duplicate_fields")
+                        .class_if(c.shape % 5 == 1 && is_json && all3, "sequence_shaped_all_fields")
+                        .class_if(c.shape % 5 > 1, "other_shapes"),
                 )
             }
         }
@@ -309,6 +330,9 @@ pub fn goldens() -> Vec<String> {
     }
     out.push("{\"registers\":[],\"b\":4,\"buildhasher\":{\"seed\":1}}".to_string());
     out.push("{\"b\":4,\"buildhasher\":{\"seed\":1},\"registers\":[0,0,0,0,0,0,0,0,0,0,0,0,0,0,0,0]}".to_string());
+    // sequence-shaped documents (rejected by the unchanged tree; a derive-style visit_seq would take them)
+    out.push("[[0,0,0,0,0,0,0,0,0,0,0,0,0,0,0,0],4,{\"seed\":1}]".to_string());
+    out.push("[[0,0,3,0,0,0,1,0,0,0,0,0,0,2,0,0,0,0,0,0,0,0,0,0,0,0,0,0,0,0,0,0],5,{\"seed\":9}]".to_string());
     out
 }
 
@@ -440,8 +464,8 @@ fn doc_strategy(tier: Tier) -> BoxedStrategy<DocCase> {
         1 => Just(vec![0u8, 1, 2, 1]),
         1 => Just(vec![0u8, 1, 2, 0]),
     ];
-    (b, len, prop_oneof![4 => 0u16..=64, 1 => Just(255u16), 1 => Just(256u16), 1 => Just(1000u16)], prop::collection::vec((any::<u16>(), prop_oneof![Just(-1i64), Just(255), Just(256), Just(65), 0i64..64]), 0..3), fields, prop::bool::weighted(0.1), any::<u8>())
-        .prop_map(|(b, len, fill, special_at, fields, unknown_field, hasher_doc)| DocCase { b, len, fill, special_at, fields, unknown_field, hasher_doc })
+    (b, len, prop_oneof![4 => 0u16..=64, 1 => Just(255u16), 1 => Just(256u16), 1 => Just(1000u16)], prop::collection::vec((any::<u16>(), prop_oneof![Just(-1i64), Just(255), Just(256), Just(65), 0i64..64]), 0..3), fields, prop::bool::weighted(0.1), any::<u8>(), prop_oneof![14 => Just(0u8), 4 => Just(1u8), 1 => Just(2u8), 1 => Just(3u8), 1 => Just(4u8)])
+        .prop_map(|(b, len, fill, special_at, fields, unknown_field, hasher_doc, shape)| DocCase { b, len, fill, special_at, fields, unknown_field, hasher_doc, shape })
         .boxed()
 }
 
@@ -484,12 +508,12 @@ pub fn checks() -> Vec<Box<dyn DynCheck>> {
 }
 
 pub fn run(ctx: &Ctx) {
-    ctx.set_rule("round_trip: b in 4..=18, registers from generated boundary hashes and add(x) keys (in half of the cases additionally overwritten with arbitrary u8 values through with_registers_and_hash) under a serialisable seeded hasher, through serde_json string and Value; equal sketch, b, registers, hasher, count and identical reaction to further adds and a merge with a third sketch. documents: structurally generated JSON documents with b in {-1,0,3,4..18,19,63,64,70,2^64-1,1.5,\"4\",null} and registers length in {0,1,2^b-1,2^b,2^b+1,2^(b+-1), k*2^b for k in 3..20, k*2^b/2, random < 300} varied independently, register values > 255 / negative, fields omitted, duplicated, reordered, unknown. byte_mutations: golden documents with up to 5 byte/token/slice mutations. Oracle: Err, or Ok(h) with 4<=b<=18 and exactly 2^b registers on which add_hashed, add, count and merge (both directions) do not panic. Non-trivial: round trips with non-empty registers; documents that parse as JSON with all three fields present; mutated inputs that still parse as JSON. Distinct = hash of the case / of the bytes.");
+    ctx.set_rule("round_trip: b in 4..=18, registers from generated boundary hashes and add(x) keys (in half of the cases additionally overwritten with arbitrary u8 values through with_registers_and_hash) under a serialisable seeded hasher, through serde_json string and Value; equal sketch, b, registers, hasher, count and identical reaction to further adds and a merge with a third sketch. documents: structurally generated JSON documents with b in {-1,0,3,4..18,19,63,64,70,2^64-1,1.5,\"4\",null} and registers length in {0,1,2^b-1,2^b,2^b+1,2^(b+-1), k*2^b for k in 3..20, k*2^b/2, random < 300} varied independently, register values > 255 / negative, fields omitted, duplicated, reordered, unknown; the same content also as a JSON array of the field values (sequence shape), flattened, or wrapped in one-element arrays. byte_mutations: golden documents with up to 5 byte/token/slice mutations. Oracle: Err, or Ok(h) with 4<=b<=18 and exactly 2^b registers on which add_hashed, add, count and merge (both directions) do not panic. Non-trivial: round trips with non-empty registers; documents that parse as JSON with all three fields present; mutated inputs that still parse as JSON. Distinct = hash of the case / of the bytes.");
     ctx.assume("serde_json is the serialisation format exercised; the hasher is a seeded SipHash newtype with derive(Serialize, Deserialize)");
     ctx.run_regressions(&[&RoundTrip, &Docs, &Bytes]);
     let t = ctx.tier;
     ctx.run_random(&RoundTrip, t.pick(3_000, 40_000), move || rt_strategy(t));
-    ctx.run_random(&Docs, t.pick(12_000, 200_000), move || doc_strategy(t));
+    ctx.run_random(&Docs, t.pick(18_000, 300_000), move || doc_strategy(t));
     ctx.run_random(&Bytes, t.pick(40_000, 1_000_000), bytes_strategy);
     if t == Tier::Thorough && !ctx.failed() {
         if let Some(o) = crate::engine::fuzz::run_libfuzzer(ctx, "hll_json", 2_000_000, 4096) {
@@ -508,8 +532,9 @@ pub fn run(ctx: &Ctx) {
             }
         }
     }
-    ctx.require_class("documents", "accepted", 0.03);
+    ctx.require_class("documents", "accepted", 0.02);
     ctx.require_class("documents", "structurally_valid_all_fields", 0.4);
+    ctx.require_class("documents", "sequence_shaped_all_fields", 0.08);
     ctx.require_class("byte_mutations", "json_but_rejected", 0.02);
     ctx.require_class("byte_mutations", "accepted", 0.02);
 }
